@@ -92,6 +92,29 @@ PROPS = {
         "level_note": "Trusted: oracle position identity (placement, side, rights, e.p.); the repository's own from-scratch Hash is one side of the comparison, as the property states.",
         "technique": "property-based testing (rapid): stateful push/pop histories, round-trip (incremental vs scratch) and metamorphic (transposition, single-component change) oracles",
     },
+    "C05": {
+        "title": "game results",
+        "run": "^TestC05_",
+        "level": "exploration",
+        "shards": 16,
+        "timeout": 420,
+        "thorough_scale": 12,
+        "rule": "C05/history: generated game histories of 0-140 plies (shuffling / quiet / capture-happy move policies; start = initial "
+                "position, seed pool incl. low-material endings, synthetic; half-move clock 0-99 and move number carried in from the FEN), "
+                "a quarter of them forked at a drawn point with both boards continuing. After every PushMove: rule fired in the oracle "
+                "game (>=3 occurrences counted over the whole game incl. the start position, clock >= 100 counting on from the set-up "
+                "clock with only pawn moves and captures resetting it, insufficient material after a capture/under-promotion) => "
+                "Result().Outcome == Draw; fifth occurrence => reason five-fold unless another rule holds; Draw => some rule has fired "
+                "in this game; NoProgress() == oracle clock; no legal move => AdjudicateNoLegalMoves() = checkmate iff in check. "
+                "Non-trivial = distinct histories in which a rule fires, is one step from firing (occurrence count 2, clock >= 95), "
+                "ends in mate/stalemate, or leaves two opposite-coloured bishops; evaluations = histories.",
+        "assumptions": COMMON_ASSUMPTIONS + ["a draw flag that stays set on later moves of the same game is allowed (the property only forbids a draw in a game where no rule has fired)"],
+        "level_text": "Exploration: ~12k histories (about 700k pushes) per quick run judged after every move against the oracle's "
+                      "game-level rules; generator labels show how often each rule and each awkward sub-case (first occurrence at "
+                      "clock start, clock from FEN, across a fork, two bishops) actually occurred.",
+        "level_note": "Trusted: oracle.Game (exact position comparison over the whole history, FIDE clock).",
+        "technique": "property-based testing (rapid): generated histories with forks, model-based oracle (independent game-rules model), invariant after every step",
+    },
 }
 
 # Properties not claimed, with the reason (kept current).
